@@ -35,7 +35,7 @@ STREAMS = {
         "bfs_w": ("bfs", "6 2 4 2 cw"),
         "bfs_a": ("bfs", "6 2 3 2 ca"),
         "bfs_n": ("bfs", "6 2 4 2 nwa"),
-        "shp4": ("shapes", "4 5 4"),
+        "shp4": ("shapes", "4 5 2"),
         "shp3": ("shapes", "3 6 6"),
         "shp5": ("shapes", "5 2 2"),
         "rand_cw": ("gen", ("cw", 3000, 14)),
